@@ -183,13 +183,6 @@ func (a *UDPAssociation) ReadLoop() {
 			continue
 		}
 
-		// Update actual client address on first datagram
-		a.mu.Lock()
-		if a.ActualClientAddr == nil {
-			a.ActualClientAddr = clientAddr
-		}
-		a.mu.Unlock()
-
 		// Verify client address if expected address was specified
 		a.mu.RLock()
 		expected := a.ExpectedClientAddr
@@ -201,6 +194,14 @@ func (a *UDPAssociation) ReadLoop() {
 				continue
 			}
 		}
+
+		// Replies go to the first sender that passed the filter above (recording the
+		// address before filtering let a stranger's datagram capture the replies)
+		a.mu.Lock()
+		if a.ActualClientAddr == nil {
+			a.ActualClientAddr = clientAddr
+		}
+		a.mu.Unlock()
 
 		// Parse SOCKS5 UDP header
 		header, payload, err := ParseUDPHeader(buf[:n])
